@@ -89,8 +89,12 @@ int cif_packet_create(cif_packet_tp **packet, UChar *names[]) {
                     entry->key_orig = cif_u_strdup(*next);
 
                     if (entry->key_orig == NULL) {
+                        /* as on success, the normalized names belong to the packet, and are released along with it */
+                        entry->key_orig = entry->key;
+                        (*packet)->map.is_standalone = 1;
                         cif_packet_free(*packet);
-                        FAIL(soft, CIF_MEMORY_ERROR);
+                        free(names_norm);
+                        return CIF_MEMORY_ERROR;
                     }
                 }
             }
